@@ -70,7 +70,11 @@ theorem GEN_setup_mtu4_eq (args : List ArgOracle) :
   unfold GenSetup.mtu4 Plug.mtu.setup single
   match args with
   | [] => rfl
-  | [a] => simp [GenSetup.arg]; cases a.int <;> rfl
+  | [a] =>
+    simp only [GenSetup.arg, List.getD_cons_zero]
+    cases a.int with
+    | none => rfl
+    | some n => by_cases hn : n < 0 ∨ n > 65535 <;> simp only [hn, if_true, if_false] <;> rfl
   | a :: b :: rest => simp
 
 theorem GEN_setup_sleep4_eq (args : List ArgOracle) :
@@ -94,15 +98,27 @@ theorem GEN_setup_leasetime4_eq (args : List ArgOracle) :
   unfold GenSetup.leasetime4 Plug.leasetime.setup
   match args with
   | [] => rfl
-  | a :: rest => simp [GenSetup.arg]; cases a.dur <;> rfl
+  | a :: rest =>
+    simp only [GenSetup.arg, List.getD_cons_zero]
+    cases a.dur with
+    | none => rfl
+    | some d => by_cases hd : d < 0 ∨ d > 4294967295 * 1000000000 <;> simp only [hd, if_true, if_false] <;> rfl
 
 theorem GEN_setup_ipv6only4_eq (args : List ArgOracle) :
     (GenSetup.ipv6only4 args).mapError (fun _ => ()) = Plug.ipv6only.setup args := by
   unfold GenSetup.ipv6only4 GenSetup.ipv6only4From Plug.ipv6only.setup
   match args with
   | [] => rfl
-  | [a] => simp [GenSetup.arg]; cases a.dur <;> rfl
-  | a :: b :: rest => simp [GenSetup.arg]; cases a.dur <;> rfl
+  | [a] =>
+    simp only [GenSetup.arg, List.getD_cons_zero]
+    cases a.dur with
+    | none => rfl
+    | some d => by_cases hd : d < 0 ∨ d > 4294967295 * 1000000000 <;> simp only [hd, if_true, if_false] <;> rfl
+  | a :: b :: rest =>
+    simp only [GenSetup.arg, List.getD_cons_zero]
+    cases a.dur with
+    | none => rfl
+    | some d => by_cases hd : d < 0 ∨ d > 4294967295 * 1000000000 <;> simp only [hd, if_true, if_false] <;> rfl
 
 /-! ## autoconfigure: the look-up in `argMap` -/
 
